@@ -442,8 +442,13 @@ def _pause_command_part(case, base, res, brng):
             T['policies'] = {'pause-before': True}
             clause, pos = 'pause-before', -1
         else:
-            clause = brng.choice(sorted(set(e['clause']
-                                            for e in T['edges'])))
+            # (not into on-error: a command that fires there counts as
+            # handling the error, which changes the outcome by definition)
+            clauses = sorted(set(e['clause'] for e in T['edges']) -
+                             {'on-error'})
+            if not clauses:
+                continue
+            clause = brng.choice(clauses)
             idxs = [i for i, e in enumerate(T['edges'])
                     if e['clause'] == clause]
             pos = brng.choice(idxs + [idxs[-1] + 1])
